@@ -224,7 +224,9 @@ def point_case(draw):
             x = draw(st.floats(min_value=lo, max_value=hi, allow_nan=False))
         pts.append(min(max(x, lo), hi))
     return {'type': t, 'points': pts, 'direction': draw(st.integers(0, 1)), 'f32': draw(st.booleans()),
-            'via_file': draw(st.booleans())}
+            'via_file': draw(st.booleans()),
+            # Linear scales in front of the thermocouple scale (through a file only): see vf.scales.chain_before
+            'chain': [draw(st.integers(0, 3)), draw(st.sampled_from([2.0, 0.5, -4.0, 1024.0])), draw(st.sampled_from([0.0, 0.0, 64.0]))]}
 
 
 def check_scaling(case, rec):
@@ -257,7 +259,19 @@ def check_scaling(case, rec):
     try:
         if case['via_file']:
             p = make_path('g', 'c')
-            graph = [{'type': 'Thermocouple', 'src': None, 'p': {'type_code': NI_CODES[t], 'direction': case['direction']}}]
+            sensor = {'type': 'Thermocouple', 'src': None, 'p': {'type_code': NI_CODES[t], 'direction': case['direction']}}
+            shape, m, c = case.get('chain') or [0, 2.0, 0.0]
+            if case['f32']:
+                shape = 0               # the exact pre-image of a float32 sample under the Linear scales needs float64 raw data
+            graph, raw_for = SC.chain_before(sensor, shape, m, c)
+            if shape:
+                rec.label('thermocouple_fed_by_scale_%d_of_%d' % (graph[-1]['src'], len(graph)))
+                inp = raw_for(inp.astype(np.float64))
+                # what the thermocouple scale really sees: the Linear scales applied to the raw data (rounding included)
+                seen, _m = SC.eval_graph(graph, inp, upto=graph[-1]['src'])
+                if case['direction'] == 1:
+                    ok = (seen >= lo) & (seen <= hi)
+                    want = 1000.0 * ref_emf(t, np.clip(seen, lo, hi))
             seg = {'be': False, 'interleaved': False,
                    'entries': [{'path': p, 'hdr': 'full', 'type': 'f32' if case['f32'] else 'f64', 'n': len(inp),
                                 'props': SC.graph_props(graph, True)}],
@@ -300,7 +314,83 @@ def check_scaling(case, rec):
                 t, NI_CODES[t], float(inp[i]), want[i], got[i]))
 
 
+@st.composite
+def mixed_case(draw):
+    """an array of valid samples with foreign ones (NaN, +-inf, far outside the range) mixed in at drawn positions"""
+    t = draw(st.sampled_from(list(TYPES)))
+    lo, hi = type_range(t)
+    n = draw(st.integers(1, 12))
+    valid = [draw(st.floats(min_value=lo, max_value=hi, allow_nan=False)) for _ in range(n)]
+    foreign = draw(st.lists(st.tuples(st.integers(0, n), st.sampled_from(['nan', 'inf', '-inf', 'above', 'below'])), max_size=3))
+    return {'type': t, 'valid': valid, 'foreign': [list(f) for f in foreign], 'direction': draw(st.integers(0, 1)),
+            'via_scaling': draw(st.booleans())}
+
+
+def check_mixed(case, rec):
+    """conversions are elementwise: what a valid sample converts to does not depend on its neighbours in the array"""
+    from nptdms import scaling
+    t = case['type']
+    lo, hi = type_range(t)
+    T = np.array(case['valid'], dtype=np.float64)
+    if case['direction'] == 0:
+        ilo, ihi = INV_RANGE[t]
+        T = np.clip(T, ilo, ihi)
+        x = ref_emf(t, T)              # mV
+    else:
+        x = T.copy()
+    special = {'nan': np.nan, 'inf': np.inf, '-inf': -np.inf,
+               'above': (1e6 if case['direction'] else 1e5), 'below': (-1e6 if case['direction'] else -1e5)}
+    vals = list(x)
+    marks = [True] * len(vals)
+    for (pos, kind) in case['foreign']:
+        pos = min(pos, len(vals))
+        vals.insert(pos, special[kind])
+        marks.insert(pos, False)
+    arr = np.array(vals, dtype=np.float64)
+    marks = np.array(marks)
+    rec.nontrivial(not marks.all())
+    rec.label('type=' + t, 'direction=%d' % case['direction'], 'with_foreign_samples' if not marks.all() else 'valid_only',
+              *('foreign=' + k for (_p, k) in case['foreign']))
+    try:
+        with np.errstate(all='ignore'):
+            if case['via_scaling']:
+                factor = 1000.0
+                sc = scaling.ThermocoupleScaling(NI_CODES[t], case['direction'], 0xFFFFFFFF)
+                whole = np.asarray(sc.scale(arr * factor if case['direction'] == 0 else arr.copy()), dtype=np.float64)
+                alone = np.array([np.asarray(sc.scale(np.array([v * factor if case['direction'] == 0 else v])))[0]
+                                  for v in arr[marks]], dtype=np.float64)
+            else:
+                fn = tc(t).mv_to_celsius if case['direction'] == 0 else tc(t).celsius_to_mv
+                whole = np.asarray(fn(arr.copy()), dtype=np.float64)
+                alone = np.array([np.asarray(fn(np.array([v])))[0] for v in arr[marks]], dtype=np.float64)
+    except Exception as e:      # noqa
+        rec.violation('elementwise:raised', 'type %s direction %d on %r: %s' % (t, case['direction'], arr, describe_exc(e)),
+                      key=exc_key(e))
+        return
+    if len(whole) != len(arr):
+        rec.violation('elementwise:length', '%d samples in, %d out' % (len(arr), len(whole)))
+        return
+    got = whole[marks]
+    bad = np.nonzero(~(np.abs(got - alone) <= 1e-9 * np.maximum(np.abs(alone), 1.0)))[0]
+    if len(bad):
+        i = int(bad[0])
+        rec.violation('elementwise:' + ('inverse' if case['direction'] == 0 else 'forward'),
+                      'type %s: sample %r converts to %r inside the array %r but to %r on its own' % (
+                          t, arr[marks][i], got[i], arr, alone[i]))
+        return
+    # and the valid samples are right in absolute terms too
+    if case['direction'] == 1:
+        want = ref_emf(t, T) * (1000.0 if case['via_scaling'] else 1.0)
+        if np.any(np.abs(got - want) > 1e-6 + 1e-12 * np.abs(want)):
+            rec.violation('forward:' + t, 'type %s inside a mixed array: %r, reference %r' % (t, got, want))
+    else:
+        if np.any(~(np.abs(got - T) <= INV_ERR[t] + 1e-6)):
+            rec.violation('inverse:' + t, 'type %s inside a mixed array: %r, true temperatures %r' % (t, got, T))
+
+
 def check(case, rec):
+    if 'valid' in case:
+        return check_mixed(case, rec)
     if 'n' in case:
         return check_grid(case, rec)
     if 'points' in case:
@@ -324,4 +414,5 @@ def jobs(tier):
                 note='%d-point uniform grid per type, forward and inverse, one array call' % n),
             Job('piece_boundaries', 'enum', _enum(bnds), exhaustive=True, check=check_boundaries,
                 note='every piece boundary and range end with +-1, +-2 ulp neighbours, scalar and array'),
-            Job('scaling_points', 'hyp', point_case, n=6000 if tier == 'quick' else 100000, check=check_scaling)]
+            Job('scaling_points', 'hyp', point_case, n=6000 if tier == 'quick' else 100000, check=check_scaling),
+            Job('arrays_with_foreign_samples', 'hyp', mixed_case, n=4000 if tier == 'quick' else 80000, check=check_mixed)]
